@@ -110,30 +110,32 @@ type classifyBranch struct {
 // parserChain reads the ordered classification of number tokens in the parser.
 func parserChain(p *core.Program) ([]classifyBranch, string) {
 	info := p.Pkg("parser").TypesInfo
-	parseOf := func(b *ast.BlockStmt) (string, int64) {
+	parseOf := func(body []ast.Stmt) (string, int64) {
 		kind, base := "", int64(-1)
-		ast.Inspect(b, func(n ast.Node) bool {
-			c, ok := n.(*ast.CallExpr)
-			if !ok {
-				return true
-			}
-			fn := eng.CalleeOf(info, c)
-			if fn == nil || fn.Pkg() == nil || fn.Pkg().Path() != "strconv" {
-				return true
-			}
-			switch fn.Name() {
-			case "ParseFloat":
-				kind = "float"
-			case "ParseInt", "ParseUint":
-				kind = "int"
-				if len(c.Args) >= 2 {
-					if tv, ok := info.Types[c.Args[1]]; ok && tv.Value != nil {
-						base, _ = constant.Int64Val(tv.Value)
+		for _, st := range body {
+			ast.Inspect(st, func(n ast.Node) bool {
+				c, ok := n.(*ast.CallExpr)
+				if !ok {
+					return true
+				}
+				fn := eng.CalleeOf(info, c)
+				if fn == nil || fn.Pkg() == nil || fn.Pkg().Path() != "strconv" {
+					return true
+				}
+				switch fn.Name() {
+				case "ParseFloat":
+					kind = "float"
+				case "ParseInt", "ParseUint":
+					kind = "int"
+					if len(c.Args) >= 2 {
+						if tv, ok := info.Types[c.Args[1]]; ok && tv.Value != nil {
+							base, _ = constant.Int64Val(tv.Value)
+						}
 					}
 				}
-			}
-			return true
-		})
+				return true
+			})
+		}
 		return kind, base
 	}
 	var best []classifyBranch
@@ -142,67 +144,55 @@ func parserChain(p *core.Program) ([]classifyBranch, string) {
 		if fd.Body == nil {
 			continue
 		}
-		elseChild := map[*ast.IfStmt]bool{}
-		ast.Inspect(fd.Body, func(n ast.Node) bool {
-			if is, ok := n.(*ast.IfStmt); ok {
-				if e, ok := is.Else.(*ast.IfStmt); ok {
-					elseChild[e] = true
+		// a chain (if / else-if, tagless switch, or early-returning ifs) whose first branch parses
+		// a number with strconv
+		eng.StmtLists(fd.Body, func(list []ast.Stmt) {
+			for i := range list {
+				brs := eng.BranchChain(list, i)
+				if len(brs) < 2 {
+					continue
 				}
-			}
-			return true
-		})
-		ast.Inspect(fd.Body, func(n ast.Node) bool {
-			is, ok := n.(*ast.IfStmt)
-			if !ok || elseChild[is] {
-				return true
-			}
-			// a chain is an if / else-if … whose branches all parse a number with strconv
-			if k, _ := parseOf(is.Body); k == "" {
-				return true
-			}
-			var chain []classifyBranch
-			cur := is
-			for cur != nil {
-				bad := func(why string) bool {
-					problem = "the classification chain at " + p.Pos(is.Pos()) + " has a test that is not strings.Contains / ContainsAny of a constant: " + why
-					chain = nil
-					return true
+				if k, _ := parseOf(brs[0].Body); k == "" {
+					continue
 				}
-				c, ok := eng.Unparen(cur.Cond).(*ast.CallExpr)
-				if !ok || len(c.Args) != 2 {
-					return bad(eng.ExprStr(cur.Cond))
-				}
-				fn := eng.CalleeOf(info, c)
-				if fn == nil || fn.Pkg() == nil || fn.Pkg().Path() != "strings" || (fn.Name() != "ContainsAny" && fn.Name() != "Contains") {
-					return bad(eng.ExprStr(cur.Cond))
-				}
-				set, ok := constStringOf(info, c.Args[1])
-				if !ok {
-					return bad(eng.ExprStr(cur.Cond))
-				}
-				k, b := parseOf(cur.Body)
-				if k == "" {
-					return bad("a branch without a strconv parse")
-				}
-				chain = append(chain, classifyBranch{fn.Name() == "ContainsAny", set, k, b, p.Pos(cur.Pos())})
-				switch e := cur.Else.(type) {
-				case *ast.IfStmt:
-					cur = e
-				case *ast.BlockStmt:
-					k, b := parseOf(e)
-					if k == "" {
-						return true
+				var chain []classifyBranch
+				for _, br := range brs {
+					k, b := parseOf(br.Body)
+					if br.Cond == nil {
+						if k != "" {
+							chain = append(chain, classifyBranch{false, "", k, b, p.Pos(br.Pos)})
+						}
+						break
 					}
-					chain = append(chain, classifyBranch{false, "", k, b, p.Pos(e.Pos())})
-					cur = nil
-				default:
-					cur = nil
+					bad := func(why string) {
+						problem = "the classification chain at " + p.Pos(brs[0].Pos) + " has a test that is not strings.Contains / ContainsAny of a constant: " + why
+						chain = nil
+					}
+					c, ok := eng.Unparen(br.Cond).(*ast.CallExpr)
+					if !ok || len(c.Args) != 2 {
+						bad(eng.ExprStr(br.Cond))
+						break
+					}
+					fn := eng.CalleeOf(info, c)
+					if fn == nil || fn.Pkg() == nil || fn.Pkg().Path() != "strings" || (fn.Name() != "ContainsAny" && fn.Name() != "Contains") {
+						bad(eng.ExprStr(br.Cond))
+						break
+					}
+					set, ok := constStringOf(info, c.Args[1])
+					if !ok {
+						bad(eng.ExprStr(br.Cond))
+						break
+					}
+					if k == "" {
+						bad("a branch without a strconv parse")
+						break
+					}
+					chain = append(chain, classifyBranch{fn.Name() == "ContainsAny", set, k, b, p.Pos(br.Pos)})
+				}
+				if len(chain) > len(best) {
+					best = chain
 				}
 			}
-			if len(chain) > len(best) {
-				best = chain
-			}
-			return true
 		})
 	}
 	if problem != "" {
